@@ -128,7 +128,15 @@ def fmt_num(v):
     if isinstance(v, int):
         return str(v)
     s = repr(float(v))
-    assert "e" not in s and "inf" not in s and "nan" not in s, s
+    assert "inf" not in s and "nan" not in s, s
+    if "e" in s:
+        # written as a plain decimal literal (MapServer's way); must denote exactly the same float
+        from decimal import Decimal
+
+        s = format(Decimal(s), "f")
+        if "." not in s:
+            s += ".0"
+        assert float(s) == float(v), (s, v)
     return s
 
 
